@@ -92,6 +92,7 @@ def install(reg):
             return [(st, V(lt, L))]
         return None
     def comp_hook(eng, st, e, kind):
+        if not eng.reg.dyn: return None        # strict typed unit: generic comprehension contract (pyvc/comp.py)
         t = contains_tracked(eng, e)
         if t is not None: raise Unsupported('comprehension at %s contains the tracked call %s' % (eng.loc(e), t))
         return [(st, fresh('comp'))]
